@@ -74,17 +74,54 @@ def correspondence(ctx):
         py_ascii = "".join(L.cls_char(chr(i)) for i in range(128))
         if lean_ascii != py_ascii:
             ctx.mismatch("AsciiOK", "ASCII classes", py_ascii, lean_ascii)
-        ctx.hist["templates_with_theorem"] = (
-            "parse_render_iso_offsets: iso_[T|sp]_[s|us|dot_f1..f6|comma_f1..f6|min] x {none, Z, ' Z', ' UTC', +-HH, +-HHMM, +-HH:MM, "
-            "each also after a space}; parse_render_compact: compact_T_s, compact_nosep_s, compact_T_min, compact_date; "
-            "parse_render_monthname: ctime, rfc2822 (x every offset), 'Month D, YYYY', d_Mon_Y, dd-Mon-Y (year >= 100 except "
-            "dd-Mon-Y); parse_render_ampm: 'YYYY-MM-DD H:MM AM|PM'; parse_render_hms_letters: hms_letters; parse_render_numeric: "
-            "us_slash_date (MM/DD/YYYY), eu_slash_date (DD/MM/YYYY, dayfirst), yf_slash_date (YYYY/MM/DD), us_yy, eu_yy_date, yf_yy "
-            "(two-digit years within -50..+49 of _year)")
-        ctx.hist["templates_correspondence_only"] = (
-            "parse_render_partial: us_slash / eu_slash / yf_slash (numeric date FOLLOWED BY a time), us_dash_date, eu_dot, yf_dot_date, "
-            "eu_yy (with time), dd-Mon-yy, yymmdd; long_ampm, ampm_short, ampm_hour, ampm_hour_tight, hm_letters, compact_T_us, d_Month_Y_hm, "
-            "Mon_d_Y_hms; offsets after the non-ISO templates other than rfc2822")
+        # proved / partial template lists come from the Lean side (PT.provedTemplates, covered by the theorem
+        # C02.proved_templates_have_theorems): an id listed there without a theorem does not build
+        proved = dict(x.split(":") for x in ctx.driver(["parser.proved"])[0][3:].split(","))
+        py_ids = [t['name'] for t in G.TEMPLATES]
+        ctx.hist["proved_templates"] = ", ".join("%s[offsets:%s]" % (k, v) for k, v in proved.items())
+        ctx.hist["partial_templates"] = ", ".join(
+            [n for n in py_ids if n not in proved] +
+            ["%s+offsets" % n for n in py_ids if n in proved and proved[n] == "none" and G.T[n]['time']])
+        ctx.count("proved_template_ids", len(proved))
+        ctx.count("partial_template_ids", len([n for n in py_ids if n not in proved]))
+        unknown = [k for k in proved if k not in G.T]
+        if unknown:
+            ctx.mismatch("parser.proved", "ids unknown to the oracle's template table", "", ",".join(unknown))
+        # the Lean printer of EVERY proved template against the oracle's Python printer of the same id
+        rq = ctx.subrng("tmpl")
+        treqs, texp = [], []
+        OFFW = {None: "n", "Z": "z0", " Z": "z1", " UTC": "u"}
+        def offwire(o):
+            if o in OFFW:
+                return OFFW[o]
+            sp = 1 if o.startswith(" ") else 0
+            t = o.strip(); neg = 1 if t[0] == "-" else 0; t = t[1:]
+            if ":" in t:
+                return "c%d%d.%d.%d" % (sp, neg, int(t[:2]), int(t[3:]))
+            if len(t) == 4:
+                return "m%d%d.%d.%d" % (sp, neg, int(t[:2]), int(t[2:]))
+            return "h%d%d.%d" % (sp, neg, int(t))
+        for _ in range(ctx.budget(6000, 60000)):
+            pid = rq.choice(list(proved))
+            if pid not in G.T:
+                continue
+            t = G.T[pid]
+            d = G.boundary_dt(rq)
+            off = None
+            if t['time'] and proved[pid] != "none":
+                off = rq.choice(G.OFFSETS)
+                if off and t['sp'] and not off.startswith(" "):
+                    off = " " + off
+                if off and proved[pid] == "spaced" and not off.startswith(" "):
+                    off = " " + off
+            treqs.append("parser.tmpl %s [%d,%d,%d,%d,%d,%d,%d] %s" % (pid, d.year, d.month, d.day, d.hour, d.minute, d.second,
+                                                                     d.microsecond, offwire(off)))
+            texp.append("ok " + L.cps(G.render(t, d, off)))
+        for q, e, g in zip(treqs, texp, ctx.driver(treqs)):
+            if e != g:
+                ctx.mismatch("parser.tmpl", q, e, g)
+        ctx.traces += len(treqs)
+        ctx.count("tmpl_printer_cases", len(treqs))
         # the Lean printers of the proved families against independent Python printers
         rr = ctx.subrng("rend")
         reqs, exp = [], []
